@@ -9,7 +9,7 @@
 (*   ClientQuery(m)     a client asks the trigger name of move m           *)
 (*   AskZone            Resolver.lookup/exchange: dial the zone's servers   *)
 (*   AcceptReply        dnsclient.Conn.Exchange: ID loop on UDP, strict ID  *)
-(*                      on the TCP retry, QuestionMatches                   *)
+(*                      on streams, QuestionMatches; retry udp, udp, tcp    *)
 (*   Classify           Resolver.resolve: answer / authority / empty        *)
 (*   ExtractDelegation  extractDelegationInfo (first NS anchors the set)    *)
 (*   ValidReferral      validReferral + progressingReferral + the parent-   *)
@@ -157,7 +157,7 @@ HonestReply(z, n) ==
 -----------------------------------------------------------------------------
 VARIABLES
   script,    \* moves played so far
-  pc, task, zone, srv, tries, depth, inbox, msg, info, out, hit, tostore,
+  pc, task, zone, srv, tries, tcp, depth, inbox, msg, info, out, hit, tostore,
   deleg,     \* Resolver.delegations: zone -> server addresses ({} = absent)
   glue,      \* Resolver.glueV4: host -> addresses
   cache,     \* answer cache: set of [qn, rc, rrs]
@@ -166,7 +166,7 @@ VARIABLES
   \* ghosts (never read by the resolver actions)
   dialled, bankLog, acceptedBad, usedGlue, acceptedRefs, usedForeign
 
-vars == <<script, pc, task, zone, srv, tries, depth, inbox, msg, info, out, hit, tostore, deleg, glue,
+vars == <<script, pc, task, zone, srv, tries, tcp, depth, inbox, msg, info, out, hit, tostore, deleg, glue,
           cache, replies, vq, vres, dialled, bankLog, acceptedBad, usedGlue, acceptedRefs, usedForeign>>
 
 NoTask == [qn |-> NoName, sq |-> NoName, kind |-> "none", i |-> 0]
@@ -174,7 +174,7 @@ NoInfo == [owner |-> NoName, class |-> "IN", hosts |-> {}, incoherent |-> FALSE,
 NoOut  == [rc |-> "NONE", ans |-> <<>>]
 
 Init ==
-  /\ script = <<>> /\ pc = "idle" /\ task = NoTask /\ zone = TestZ /\ srv = {} /\ tries = 0 /\ depth = 0
+  /\ script = <<>> /\ pc = "idle" /\ task = NoTask /\ zone = TestZ /\ srv = {} /\ tries = 0 /\ tcp = FALSE /\ depth = 0
   /\ inbox = <<>> /\ msg = NoMsg /\ info = NoInfo /\ out = NoOut /\ hit = FALSE /\ tostore = <<>>
   /\ deleg = [z \in DelegZones |-> IF z = TestZ THEN {"a_test"} ELSE {}]
   /\ glue = [h \in Hosts |-> {}]
@@ -189,7 +189,7 @@ CacheHit(n) == {e \in cache : e.qn = n}
 
 Begin(n, kind, i) ==
   /\ task' = [qn |-> n, sq |-> n, kind |-> kind, i |-> i]
-  /\ zone' = StartZone(n) /\ srv' = deleg[StartZone(n)] /\ tries' = 0 /\ depth' = 3
+  /\ zone' = StartZone(n) /\ srv' = deleg[StartZone(n)] /\ tries' = 0 /\ tcp' = FALSE /\ depth' = 3
   /\ msg' = NoMsg /\ info' = NoInfo /\ out' = NoOut /\ hit' = FALSE /\ tostore' = <<>> /\ inbox' = <<>>
   /\ pc' = "ask"
 
@@ -224,28 +224,36 @@ AskZone ==
                    THEN IF MoveFor(n) = {}
                         THEN inbox' = <<Dgram(TRUE, n, Msg("NXDOMAIN", <<>>, <<SOA(AttZ, "att")>>, <<>>))>>
                         ELSE LET i == CHOOSE j \in MoveFor(n) : TRUE
+                                 pre == script[i].pre
                                  real == Dgram(TRUE, n, ZContent(i, script[i]))
-                             IN \* pre-datagrams travel on UDP only; the third try is TCP
-                                inbox' = IF tries < 2 THEN PreDgrams(script[i].pre, n) \o <<real>>
-                                         ELSE <<real>>
+                             IN \* pre-datagrams travel on UDP only; "tcpwrongid" truncates on UDP and
+                                \* answers the TCP retry with a foreign ID (strict ID on streams)
+                                inbox' = IF pre = "tcpwrongid"
+                                         THEN IF ~tcp THEN <<Dgram(TRUE, n, Msg("TC", <<>>, <<>>, <<>>))>>
+                                              ELSE <<Dgram(FALSE, n, Msg("OK", <<A(n, "spoof", "att")>>, <<>>, <<>>))>>
+                                         ELSE IF ~tcp THEN PreDgrams(pre, n) \o <<real>> ELSE <<real>>
                    ELSE inbox' = <<Dgram(TRUE, n, HonestReply(z, n))>>
-  /\ UNCHANGED <<script, task, zone, srv, tries, depth, msg, info, out, hit, tostore, deleg, glue, cache,
+  /\ UNCHANGED <<script, task, zone, srv, tries, tcp, depth, msg, info, out, hit, tostore, deleg, glue, cache,
                  replies, vq, vres, acceptedBad, usedGlue, acceptedRefs, usedForeign>>
 
-(* dnsclient.Conn.Exchange *)
+(* dnsclient.Conn.Exchange + the retry policy of Resolver.exchange (udp, udp, tcp; a    *)
+(* truncated UDP reply moves the same attempt to TCP)                                  *)
+Retry == IF tries < 2 THEN /\ tries' = tries + 1 /\ tcp' = (tcp \/ tries = 1) /\ pc' = "ask"
+         ELSE /\ pc' = "fail" /\ UNCHANGED <<tries, tcp>>
 AcceptReply ==
   /\ pc = "recv"
-  /\ LET \* UDP: skip datagrams whose ID does not match, take the first that does
-         cand == {k \in 1..Len(inbox) : inbox[k].idok \/ ~F.IdCheck}
-     IN IF cand = {} THEN /\ pc' = "fail" /\ UNCHANGED <<msg, tries, acceptedBad, task>>
+  /\ LET \* UDP: skip datagrams whose ID does not match, take the first that does;
+         \* TCP: the one message on the stream must carry the ID
+         idCheck == IF tcp THEN F.StreamIdCheck ELSE F.IdCheck
+         cand == {k \in 1..Len(inbox) : inbox[k].idok \/ ~idCheck}
+     IN IF cand = {} THEN /\ Retry /\ UNCHANGED <<msg, acceptedBad, task>>   \* dns.ErrId / read deadline
         ELSE LET k == CHOOSE x \in cand : \A y \in cand : x <= y
                  d == inbox[k]
              IN IF F.QuestionCheck /\ d.q # task.qn
-                THEN \* ErrQuestion: Resolver.exchange retries (udp, udp, tcp)
-                     /\ UNCHANGED <<msg, acceptedBad, task>>
-                     /\ IF tries < 2 THEN tries' = tries + 1 /\ pc' = "ask"
-                        ELSE tries' = tries /\ pc' = "fail"
-                ELSE /\ msg' = d.m /\ pc' = "classify" /\ UNCHANGED tries
+                THEN /\ Retry /\ UNCHANGED <<msg, acceptedBad, task>>        \* ErrQuestion
+                ELSE IF d.m.rc = "TC" /\ ~tcp
+                THEN /\ tcp' = TRUE /\ pc' = "ask" /\ UNCHANGED <<msg, acceptedBad, task, tries>>
+                ELSE /\ msg' = d.m /\ pc' = "classify" /\ UNCHANGED <<tries, tcp>>
                      /\ task' = [task EXCEPT !.sq = d.q]   \* the cache keys on the accepted message's question
                      /\ acceptedBad' = (acceptedBad \/ ~d.idok \/ d.q # task.qn)
   /\ inbox' = <<>>
@@ -261,7 +269,7 @@ Classify ==
      ELSE IF msg.ans # <<>> THEN pc' = "answer" /\ UNCHANGED out
      ELSE IF msg.auth # <<>> THEN pc' = "authority" /\ UNCHANGED out
      ELSE out' = [rc |-> "OK", ans |-> <<>>] /\ pc' = "filter"
-  /\ UNCHANGED <<script, task, zone, srv, tries, depth, inbox, msg, info, hit, tostore, deleg, glue, cache,
+  /\ UNCHANGED <<script, task, zone, srv, tries, tcp, depth, inbox, msg, info, hit, tostore, deleg, glue, cache,
                  replies, vq, vres, dialled, bankLog, acceptedBad, usedGlue, acceptedRefs, usedForeign>>
 
 (* extractDelegationInfo: the first NS anchors owner and class *)
@@ -278,7 +286,7 @@ ExtractDelegation ==
                             incoherent |-> (same # NSIdx), hasSOA |-> soa, hasNS |-> TRUE]
                 /\ IF soa THEN out' = [rc |-> msg.rc, ans |-> <<>>] /\ pc' = "filter"
                    ELSE pc' = "referral" /\ UNCHANGED out
-  /\ UNCHANGED <<script, task, zone, srv, tries, depth, inbox, msg, hit, tostore, deleg, glue, cache,
+  /\ UNCHANGED <<script, task, zone, srv, tries, tcp, depth, inbox, msg, hit, tostore, deleg, glue, cache,
                  replies, vq, vres, dialled, bankLog, acceptedBad, usedGlue, acceptedRefs, usedForeign>>
 
 (* validReferral / progressingReferral, then processDelegation's level test *)
@@ -296,7 +304,7 @@ ValidReferral ==
                     below |-> IsSub(info.owner, zone) /\ info.owner # zone,
                     onpath |-> IsSub(task.qn, info.owner)]}
         ELSE pc' = "fail" /\ UNCHANGED acceptedRefs
-  /\ UNCHANGED <<script, task, zone, srv, tries, depth, inbox, msg, info, out, hit, tostore, deleg, glue,
+  /\ UNCHANGED <<script, task, zone, srv, tries, tcp, depth, inbox, msg, info, out, hit, tostore, deleg, glue,
                  cache, replies, vq, vres, dialled, bankLog, acceptedBad, usedGlue, usedForeign>>
 
 (* checkGlueRR + usableAddr; lookupV4Nss for hosts without usable glue *)
@@ -311,10 +319,10 @@ CheckGlue ==
   /\ pc = "glue"
   /\ LET owner == info.owner
          dz == owner \in DelegZones
-     IN IF depth = 0 THEN pc' = "fail" /\ UNCHANGED <<zone, srv, tries, depth, deleg, glue, usedGlue>>   \* errMaxDepth
+     IN IF depth = 0 THEN pc' = "fail" /\ UNCHANGED <<zone, srv, tries, tcp, depth, deleg, glue, usedGlue>>   \* errMaxDepth
         ELSE IF dz /\ deleg[owner] # {}
         THEN \* resolveWithCachedNameservers
-             /\ zone' = owner /\ srv' = deleg[owner] /\ pc' = "ask" /\ tries' = 0 /\ depth' = depth - 1
+             /\ zone' = owner /\ srv' = deleg[owner] /\ pc' = "ask" /\ tries' = 0 /\ tcp' = FALSE /\ depth' = depth - 1
              /\ UNCHANGED <<deleg, glue, usedGlue>>
         ELSE LET used == {k \in 1..Len(msg.add) : GlueOK(msg.add[k])}
                  found == {msg.add[k].o : k \in used}
@@ -325,9 +333,9 @@ CheckGlue ==
                                             THEN {msg.add[k].d : k \in {x \in used : msg.add[x].o = h}}
                                             ELSE glue[h]]
                 /\ usedGlue' = usedGlue \cup {[host |-> msg.add[k].o, addr |-> msg.add[k].d, zone |-> zone] : k \in used}
-                /\ IF servers = {} THEN pc' = "fail" /\ UNCHANGED <<zone, srv, tries, depth, deleg>>
+                /\ IF servers = {} THEN pc' = "fail" /\ UNCHANGED <<zone, srv, tries, tcp, depth, deleg>>
                    ELSE /\ deleg' = IF dz THEN [deleg EXCEPT ![owner] = servers] ELSE deleg
-                        /\ zone' = owner /\ srv' = servers /\ tries' = 0 /\ depth' = depth - 1 /\ pc' = "ask"
+                        /\ zone' = owner /\ srv' = servers /\ tries' = 0 /\ tcp' = FALSE /\ depth' = depth - 1 /\ pc' = "ask"
   /\ UNCHANGED <<script, task, inbox, msg, info, out, hit, tostore, cache, replies, vq, vres, dialled,
                  bankLog, acceptedBad, acceptedRefs, usedForeign>>
 
@@ -338,7 +346,7 @@ ResolverAnswer ==
              ans |-> IF F.AnswerOwnerFilter THEN SelectSeq(msg.ans, LAMBDA r : IsSub(r.o, zone)) ELSE msg.ans]
   /\ msg' = IF F.ClearAdditional THEN [msg EXCEPT !.auth = <<>>, !.add = <<>>] ELSE msg
   /\ pc' = "chase"
-  /\ UNCHANGED <<script, task, zone, srv, tries, depth, inbox, info, hit, tostore, deleg, glue, cache, replies,
+  /\ UNCHANGED <<script, task, zone, srv, tries, tcp, depth, inbox, info, hit, tostore, deleg, glue, cache, replies,
                  vq, vres, dialled, bankLog, acceptedBad, usedGlue, acceptedRefs, usedForeign>>
 
 (* D2: an internal query for a name of an honest zone, through cache and delegations *)
@@ -369,7 +377,7 @@ ChaseAlias ==
                      /\ SubEffects(target)
                 ELSE UNCHANGED <<out, cache, deleg, bankLog, dialled>>   \* D3
   /\ pc' = IF hit THEN "reply" ELSE "filter"
-  /\ UNCHANGED <<script, task, zone, srv, tries, depth, inbox, msg, info, hit, tostore, glue, replies, vq, vres,
+  /\ UNCHANGED <<script, task, zone, srv, tries, tcp, depth, inbox, msg, info, hit, tostore, glue, replies, vq, vres,
                  acceptedBad, usedGlue, acceptedRefs, usedForeign>>
 
 (* cache.filterCacheableAnswer: keep records owned by the question name *)
@@ -377,7 +385,7 @@ FilterCacheable ==
   /\ pc = "filter"
   /\ tostore' = IF F.CacheOwnerFilter THEN SelectSeq(out.ans, LAMBDA r : r.o = task.sq) ELSE out.ans
   /\ pc' = "store"
-  /\ UNCHANGED <<script, task, zone, srv, tries, depth, inbox, msg, info, out, hit, deleg, glue, cache, replies,
+  /\ UNCHANGED <<script, task, zone, srv, tries, tcp, depth, inbox, msg, info, out, hit, deleg, glue, cache, replies,
                  vq, vres, dialled, bankLog, acceptedBad, usedGlue, acceptedRefs, usedForeign>>
 
 (* Store.setFromResponseWithKey: keyed by the question of the ACCEPTED message *)
@@ -385,20 +393,20 @@ CacheStore ==
   /\ pc = "store"
   /\ cache' = {e \in cache : e.qn # task.sq} \cup {[qn |-> task.sq, rc |-> out.rc, rrs |-> tostore]}
   /\ pc' = "reply"
-  /\ UNCHANGED <<script, task, zone, srv, tries, depth, inbox, msg, info, out, hit, tostore, deleg, glue, replies,
+  /\ UNCHANGED <<script, task, zone, srv, tries, tcp, depth, inbox, msg, info, out, hit, tostore, deleg, glue, replies,
                  vq, vres, dialled, bankLog, acceptedBad, usedGlue, acceptedRefs, usedForeign>>
 
 Fail ==
   /\ pc = "fail"
   /\ out' = [rc |-> "SERVFAIL", ans |-> <<>>] /\ pc' = "reply"
-  /\ UNCHANGED <<script, task, zone, srv, tries, depth, inbox, msg, info, hit, tostore, deleg, glue, cache, replies,
+  /\ UNCHANGED <<script, task, zone, srv, tries, tcp, depth, inbox, msg, info, hit, tostore, deleg, glue, cache, replies,
                  vq, vres, dialled, bankLog, acceptedBad, usedGlue, acceptedRefs, usedForeign>>
 
 ClientReply ==
   /\ pc = "reply"
   /\ replies' = Append(replies, [kind |-> task.kind, i |-> task.i, qn |-> task.qn, rc |-> out.rc, ans |-> out.ans])
   /\ pc' = IF task.kind = "attack" THEN "repeat" ELSE "idle"
-  /\ UNCHANGED <<script, task, zone, srv, tries, depth, inbox, msg, info, out, hit, tostore, deleg, glue, cache,
+  /\ UNCHANGED <<script, task, zone, srv, tries, tcp, depth, inbox, msg, info, out, hit, tostore, deleg, glue, cache,
                  vq, vres, dialled, bankLog, acceptedBad, usedGlue, acceptedRefs, usedForeign>>
 
 (* the same question from another client: Cache.handleCacheHit (ToMsg + additionalAnswer) or a new descent *)
@@ -408,7 +416,7 @@ RepeatQuery ==
      THEN LET e == CHOOSE x \in CacheHit(task.qn) : TRUE
           IN /\ task' = [task EXCEPT !.kind = "repeat"]
              /\ out' = [rc |-> e.rc, ans |-> e.rrs] /\ hit' = TRUE /\ pc' = "chase"
-             /\ UNCHANGED <<zone, srv, tries, depth, msg, info, tostore, inbox>>
+             /\ UNCHANGED <<zone, srv, tries, tcp, depth, msg, info, tostore, inbox>>
      ELSE Begin(task.qn, "repeat", task.i)
   /\ UNCHANGED <<script, deleg, glue, cache, replies, vq, vres, dialled, bankLog, acceptedBad, usedGlue,
                  acceptedRefs, usedForeign>>
@@ -420,7 +428,7 @@ VictimQuery(n) ==
   /\ usedForeign' = (usedForeign \/ \E k \in 1..Len(SubAns(n)) : SubAns(n)[k].by = "att")
   /\ SubEffects(n)
   /\ vq' = vq + 1
-  /\ UNCHANGED <<script, pc, task, zone, srv, tries, depth, inbox, msg, info, out, hit, tostore, glue, replies,
+  /\ UNCHANGED <<script, pc, task, zone, srv, tries, tcp, depth, inbox, msg, info, out, hit, tostore, glue, replies,
                  acceptedBad, usedGlue, acceptedRefs>>
 
 Done == pc = "idle" /\ Len(script) = MaxMoves /\ vq > Len(VictimQs)
@@ -448,8 +456,11 @@ NoForeignUsed == ~usedForeign                  \* (ii) used to answer a differen
 NoForeignRelayed ==                            \* (iii) relayed in the answer section
   \A k \in 1..Len(replies) : \A j \in 1..Len(replies[k].ans) : ~Foreign(replies[k].ans[j])
 NeverDialled == dialled \cap ({Trap} \cup Unroutable) = {}
+VictimTruth ==                                 \* later victim queries: the victim's real data or real non-existence
+  \A k \in 1..Len(vres) : /\ vres[k].rc = BankAnswer(vres[k].qn).rc
+                          /\ vres[k].ans = BankAnswer(vres[k].qn).ans
 Containment == ReplyMatches /\ GlueSound /\ ReferralSound /\ NoForeignCached /\ NoForeignUsed
-               /\ NoForeignRelayed /\ NeverDialled
+               /\ NoForeignRelayed /\ NeverDialled /\ VictimTruth
 
 TypeOK ==
   /\ Len(script) <= MaxMoves /\ \A k \in 1..Len(script) : script[k] \in Moves
@@ -461,10 +472,11 @@ TypeOK ==
 (* what the replay compares with the real pipeline *)
 Brief(s) == [k \in 1..Len(s) |-> [o |-> s[k].o, t |-> s[k].t, d |-> s[k].d, tn |-> s[k].tn]]
 Broken == {c \in {"ReplyMatches", "GlueSound", "ReferralSound", "NoForeignCached", "NoForeignUsed",
-                  "NoForeignRelayed", "NeverDialled"} :
+                  "NoForeignRelayed", "NeverDialled", "VictimTruth"} :
              CASE c = "ReplyMatches" -> ~ReplyMatches [] c = "GlueSound" -> ~GlueSound
                [] c = "ReferralSound" -> ~ReferralSound [] c = "NoForeignCached" -> ~NoForeignCached
                [] c = "NoForeignUsed" -> ~NoForeignUsed [] c = "NoForeignRelayed" -> ~NoForeignRelayed
+               [] c = "VictimTruth" -> ~VictimTruth
                [] OTHER -> ~NeverDialled}
 Outcome == [script |-> script,
             replies |-> [k \in 1..Len(replies) |-> [kind |-> replies[k].kind, i |-> replies[k].i,
